@@ -1,6 +1,8 @@
 """Generator of simulation programs shared by C03 / C04 / C05 / C20 (see impl/sim.py for the program format)."""
 from __future__ import annotations
 
+import random
+
 DISP_OPS = ["ball", "box", "sphere", "translation", "rotation", "translation_rotation", "ball+box"]
 
 
@@ -91,4 +93,11 @@ def gen_program(rng, k, ensembles=("canonical", "hamiltonian", "isobaric", "isot
         p["fixcom"] = True
     for m in moves:
         m["probability"] = rng.choice([1.0, 1.0, 0.5, 2.0])
+    # the user may prepare the system AFTER building the simulation object and before the first run (validate_simulation re-reads it):
+    # drawn from a separate stream so that the programs themselves are unchanged
+    r2 = random.Random(p["seed"] ^ 0x5EED)
+    if r2.random() < 0.3:
+        p["pre_run_edit"] = {"shift": [r2.choice([-0.25, 0.125, 0.5]), 0.0, r2.choice([0.0, 0.375])], "atom": r2.randrange(n)}
+        if ens in ("isobaric", "isotension") and r2.random() < 0.7:
+            p["pre_run_edit"]["cell"] = r2.choice([0.96875, 1.03125, 1.0625])
     return p
